@@ -1,5 +1,9 @@
 """unit c01_parser — link L2 of C01 (the parser emits every lexer token exactly once, in order) and the
-parser-driver / marker part of C02 (no panic, `bump` makes progress, `parse_chunk` terminates)."""
+parser-driver / marker part of C02 (no panic, `bump` makes progress, `parse_chunk` terminates), and hypothesis H-EV of
+c01_compose: `events_ok` (units/c01_green/iface.rs, pasted verbatim into `mod l3`; precondition of LuaTreeBuilder::build:
+a non-zero `parent` link of a NodeStart points to a LATER NodeStart) is preserved by every function under contract here and
+holds at the exit of parse_chunk — modulo the ASSUMED contracts of the two external_body shims parse_stats and
+LuaDocParser::parse, which now also assume preservation of events_ok."""
 import re
 from vc.rules import rule
 from vc import rustlex as L
@@ -129,7 +133,12 @@ FRAME_SELF = ('final(self).sp_rest() == old(self).sp_rest(),\n'
 # C02 / H-EV: l3::events_ok (units/c01_green/iface.rs, pasted into `mod l3` by the template) is preserved by everything under contract
 EVOK_SELF = 'l3::events_ok(old(self).events@) ==> l3::events_ok(final(self).events@) /*@C02.events-ok-preserved*/'
 EVOK_INV = 'l3::events_ok(old(self).events@) ==> l3::events_ok(self.events@), /*@C02.events-ok-preserved*/'
-BU = 'broadcast use {lemma_eaten_push, lemma_evok_push};'
+# the quantifier of events_ok (trigger `ev[i]`: every sequence index would instantiate it) is kept away from the queries of the
+# executable functions: its definition is hidden there (`hide` = the converse of `reveal`, a proof directive) and only the
+# three lemmas of evok.rs speak about it
+HIDE = 'hide(l3::events_ok);'
+BU_LOOP = 'broadcast use {lemma_eaten_push, lemma_evok_push};'   # inside a loop body
+BU = HIDE + ' ' + BU_LOOP                                          # at the top of a function body
 
 TRAIT_GHOST = """
     // ghost interface added by rule `trait-spec-overlay` (specification only)
@@ -158,7 +167,7 @@ TRAIT_METHODS = {
             final(self).sp_level() == old(self).sp_level() + 1,
             """ + FRAME_SELF,
         'body_first': BU,
-        'proof': [(r'\.push\(MarkEvent::NodeStart \{ kind, parent: 0 \}\);', 'after', 'proof { self.lemma_events_bounded(); }')]},
+        'proof': [(r'\.push\(MarkEvent::NodeStart \{ kind, parent: \d+ \}\);', 'after', 'proof { self.lemma_events_bounded(); }')]},
     'push_node_end': {
         'requires': 'old(self).sp_level() > 0',
         'ensures': """final(self).sp_events() == old(self).sp_events().push(MarkEvent::NodeEnd),
@@ -215,9 +224,10 @@ UNIT = {
             ns_parent(final(p).sp_events()[old(self).position as int]) == ns_parent(old(p).sp_events()[old(self).position as int]),
             final(p).sp_level() == old(p).sp_level(),
             """ + FRAME_P,
+            body_first=HIDE,
             proof=[(r'_ => unreachable!\(\),\s*\}', 'after',
                     'proof { lemma_alters_frame(old(p).sp_events(), p.sp_events(), self.position as int);\n'
-                    '        if l3::events_ok(old(p).sp_events()) { lemma_evok_alter(old(p).sp_events(), p.sp_events(), self.position as int); } }')]),
+                    '        lemma_evok_alter(old(p).sp_events(), p.sp_events(), self.position as int); }')]),
         'Marker::complete': m_fn(
             'Marker', 'complete', ret='cm',
             requires=MARKER_OK + ',\n        old(p).sp_events().len() != self.position + 1 ==> old(p).sp_level() > 0',
@@ -232,9 +242,10 @@ UNIT = {
             cm.start == self.position || cm.start == 0,
             old(p).sp_level() <= old(p).sp_events().len() ==> final(p).sp_level() <= final(p).sp_events().len(),
             """ + FRAME_P,
+            body_first=HIDE,
             proof=[(r'return CompleteMarker \{', 'before',
                     'proof { lemma_alters_frame(old(p).sp_events(), p.sp_events(), self.position as int);\n'
-                    '        if l3::events_ok(old(p).sp_events()) { lemma_evok_alter(old(p).sp_events(), p.sp_events(), self.position as int); } }')]),
+                    '        lemma_evok_alter(old(p).sp_events(), p.sp_events(), self.position as int); }')]),
         'Marker::undo': m_fn(
             'Marker', 'undo', ret='cm',
             requires=MARKER_OK,
@@ -243,9 +254,10 @@ UNIT = {
             final(p).sp_level() == old(p).sp_level(),
             cm.start == self.position, cm.kind is None,
             """ + FRAME_P,
+            body_first=HIDE,
             proof=[(r'_ => unreachable!\(\),\s*\}', 'after',
                     'proof { lemma_alters_frame(old(p).sp_events(), p.sp_events(), self.position as int);\n'
-                    '        if l3::events_ok(old(p).sp_events()) { lemma_evok_alter(old(p).sp_events(), p.sp_events(), self.position as int); } }')]),
+                    '        lemma_evok_alter(old(p).sp_events(), p.sp_events(), self.position as int); }')]),
         'CompleteMarker': {'src': {'file': M, 'kind': 'struct', 'name': 'CompleteMarker'}, 'rules': ['vis-pub', ('struct-fields', {})]},
         'CompleteMarker::precede': m_fn(
             'CompleteMarker', 'precede', ret='m',
@@ -265,7 +277,7 @@ UNIT = {
                    (r'_ => unreachable!\(\),\s*\}', 'after',
                     'proof { lemma_alters_frame(ev1, p.sp_events(), self.start as int);\n'
                     '        // the stored link m.position == old len is LATER than self.start (< old len) and holds the NodeStart just pushed by mark\n'
-                    '        if l3::events_ok(old(p).sp_events()) { lemma_evok_alter(ev1, p.sp_events(), self.start as int); } }')]),
+                    '        lemma_evok_alter(ev1, p.sp_events(), self.start as int); }')]),
         'CompleteMarker::empty': m_fn('CompleteMarker', 'empty', ret='r', ensures='r.start == 0, r.kind is None'),
         'CompleteMarker::is_invalid': m_fn('CompleteMarker', 'is_invalid', ret='r', ensures='r == (self.kind is None)'),
         'LuaParser': {'src': {'file': P, 'kind': 'struct', 'name': 'LuaParser'},
@@ -283,6 +295,7 @@ UNIT = {
             """ + EVOK_SELF + """,
             final(self).mark_level >= old(self).mark_level,
             final(self).token_index == final(self).tokens@.len() || !sp_trivia(final(self).current_token)""",
+            body_first=HIDE,
             proof=[(r'if is_trivia_kind\(self\.current_token\) \{', 'before',
                     'proof { lemma_emits_nil(eaten(self.events@), ranges(self.tokens@).take(0), doc_mode(self)); }')]),
         'LuaParser::current_token': p_fn('current_token', ret='r', ensures='r == self.current_token'),
@@ -303,6 +316,7 @@ UNIT = {
             final(self).token_index == old(self).token_index, final(self).parse_config == old(self).parse_config,
             final(self).tokens@.len() == old(self).tokens@.len(),
             ranges(final(self).tokens@) == ranges(old(self).tokens@)""",
+            body_first=HIDE,
             proof=[(r'self\.current_token = kind;', 'after',
                     'proof { assert(ranges(self.tokens@) =~= ranges(old(self).tokens@)); }')]),
         'LuaParser::bump': p_fn(
@@ -360,9 +374,10 @@ decreases self.tokens@.len() - *index"""}),
             ensures="""emits(eaten(final(self).events@), ranges(final(self).tokens@).take(next_index as int), doc_mode(final(self))) /*@C01.trivia.emits-run*/,
             """ + PARSER_FRAME,
             attrs='#[verifier::spinoff_prover]',
-            body_first="""let ghost k: int = if sp_trivia(self.tokens@[self.token_index as int].kind) { self.token_index as int } else { self.token_index + 1 };""",
+            body_first=HIDE + """
+        let ghost k: int = if sp_trivia(self.tokens@[self.token_index as int].kind) { self.token_index as int } else { self.token_index + 1 };""",
             proof=[
-                (r'for i in start\.\.next_index \{', 'after', BU),
+                (r'for i in start\.\.next_index \{', 'after', BU_LOOP),
                 (r'let token = &self\.tokens\[i\];', 'after',
                  """let ghost j0: int = (if i < k { k } else { i as int }) - doc_tokens@.len();
             let ghost ee = eaten(self.events@);
@@ -403,7 +418,8 @@ decreases self.tokens@.len() - *index"""}),
             ensures="""grows(eaten(old(self).events@), eaten(final(self).events@)),
             emits(eaten(final(self).events@).skip(eaten(old(self).events@).len() as int), ranges(comment_tokens@), doc_mode(old(self))) /*@C01.parse_comments.emits-slice*/,
             """ + PARSER_FRAME,
-            body_first="""reveal(emits);
+            body_first=HIDE + """
+        reveal(emits);
         let ghost r = ranges(comment_tokens@);
         let ghost e0 = eaten(self.events@);""",
             loops={
@@ -433,8 +449,8 @@ invariant
 """,
             },
             proof=[
-                (r'for token in comment_tokens \{', 'after', BU),
-                (r'\.skip\(trivia_token_start[^)]*\) \{', 'after', BU),
+                (r'for token in comment_tokens \{', 'after', BU_LOOP),
+                (r'\.skip\(trivia_token_start[^)]*\) \{', 'after', BU_LOOP),
                 (r'for token in comment_tokens \{[\s\S]*?range: token\.range,\s*\}\);', 'after',
                  """proof {
                     let n = VERUS_ghost_iter.index();
@@ -489,7 +505,7 @@ invariant
             emits(eaten(final(p).events@), ranges(old(p).tokens@), doc_mode(old(p))) /*@C01.parse_chunk.all-tokens-emitted*/,
             final(p).events@.len() > 0 && final(p).events@[0] is NodeStart,
             l3::events_ok(final(p).events@) /*@C02.events-ok-preserved*/""",
-            'body_first': 'proof { lemma_evok_empty(p.events@); }',
+            'body_first': HIDE + ' proof { lemma_evok_empty(p.events@); }',
             'loops': {0: """
 invariant
     inv(p), ranges(p.tokens@) == ranges(old(p).tokens@), p.tokens@.len() == old(p).tokens@.len(), doc_mode(p) == doc_mode(old(p)),
@@ -518,7 +534,7 @@ decreases p.tokens@.len() - p.token_index"""},
          re.S),
     ],
     'allow': [r'external_body', r'uninterp spec fn sp_'],
-    'min_obligations': 50,
+    'min_obligations': 60,
     'trusted': [
         'ASSUMED (established by unit c01_reader, link L1): tokens_ok(tokens) — consecutive token ranges are adjacent, the first starts at 0, '
         'every length > 0 (not used by any proof here), no token has kind None or TkEof (such a token would be dropped by bump: is_invalid_kind), '
@@ -531,6 +547,11 @@ decreases p.tokens@.len() - p.token_index"""},
         'tokens and the configuration, events monotone, mark_level not below entry value. Basis: events/tokens/token_index/current_token/mark_level are '
         'private to parser::lua_parser, the grammar reaches them only through the functions proved here; the one hole, pub(crate) get_events(), is used '
         'only in marker.rs, lua_parser.rs, lua_doc_parser.rs (grep, not proved)',
+        'ASSUMED (C02 / H-EV), added to the two ASSUMED contracts above: parse_stats and LuaDocParser::parse preserve l3::events_ok '
+        '(events_ok(old events) ==> events_ok(final events)). Basis, not proved: they write to `events` only through mark / push_node_end / '
+        'Marker::{set_kind,complete,undo} / CompleteMarker::precede / bump / set_current_token_kind (and, for the doc parser, through its delegating '
+        'MarkerEventContainer impl and EatToken pushes), each of which is PROVED here to preserve events_ok; `parent` is written by precede only (grep). '
+        'This is the only unproved part of H-EV/events_ok',
         'PRECONDITION bump: token_index < tokens.len() — bump at end of input indexes tokens[len] in parse_trivia_tokens and panics (reproduced); every '
         'grammar call site is guarded by a test of current_token, which is TkEof there (scan + 1M-input soup, not proved)',
         'PRECONDITION push_node_end / Marker::complete (non-empty node): mark_level > 0 (decr_mark_level is `-= 1`); callers are in the unextracted grammar, '
@@ -554,6 +575,9 @@ decreases p.tokens@.len() - p.token_index"""},
         'parse_comments: eaten grows by exactly the slice (non-doc: the token ranges; doc: a tiling of their byte span via the assumed doc-parser contract)',
         'Marker::{set_kind,complete,undo}, CompleteMarker::precede, mark, push_node_end (generic over P: MarkerEventContainer): eaten unchanged, only the own NodeStart altered, no unreachable!()/index panic',
         'parse_chunk: terminates (token_index strictly increases per iteration), all tokens emitted at exit, events[0] is the Block NodeStart',
+        'events_ok (c01_green/iface.rs, mod l3): events_ok(old events) ==> events_ok(final events) for mark, push_node_end, Marker::{set_kind,complete,undo}, '
+        'CompleteMarker::precede (the only writer of `parent`: stores m.position == old len > self.start, the NodeStart just pushed; also for start == 0), '
+        'init, set_current_token_kind, bump, parse_trivia_tokens, parse_comments; parse_chunk (events empty on entry): events_ok(final events)',
     ],
     'mutants': [
         {'name': 'bump-skip-eat', 'item': 'LuaParser::bump',
@@ -601,7 +625,7 @@ decreases p.tokens@.len() - p.token_index"""},
         {'name': 'precede-parent-into-new-marker', 'item': 'CompleteMarker::precede',
          'pattern': r'p\.get_events\(\)\[self\.start\]', 'repl': 'p.get_events()[m.position]',
          'expect': r'C02\.events-ok-preserved'},
-        {'name': 'precede-no-trivia-parent-past-end', 'item': 'CompleteMarker::precede',
+        {'name': 'precede-parent-past-end', 'item': 'CompleteMarker::precede',
          'pattern': r'\*parent = m\.position', 'repl': '*parent = m.position + 2',
          'expect': r'C02\.events-ok-preserved'},
         {'name': 'mark-nonzero-parent', 'item': 'MarkerEventContainer',
